@@ -1,6 +1,6 @@
 """Source of MANIFEST.json (run ./tools_manifest.py after editing)."""
 
-FIX_COMMITS = ['aa8a796', 'e19c32a', '9330350', '8599158', '33efd15']
+FIX_COMMITS = ['aa8a796', 'e19c32a', '9330350', '8599158', '33efd15', '1cc24ab', '668079e', 'f34decb', 'f0c9eb4', 'f63685a', 'f41aea7', '4c9fae6']
 
 _ALL = ['C%02d' % i for i in range(1, 21)]
 
@@ -64,6 +64,20 @@ CHECKS = [
         technique='property-based testing (Hypothesis): reference-model + metamorphic oracles over generated sizes/seeds/uniforms',
     ),
 ]
+
+CHECKS.append(dict(
+    id='C17',
+    text='Hypothesis-generated threshold lists (open/closed ends, non-zero first threshold), Box-Cox exponents concentrated '
+         'around 0 and the +-1e-5 switching point, distribution parameters with arguments inside, on the edges of and outside '
+         'the support, segmentations and nest structures with name dictionaries in arbitrary order. Every helper expression is '
+         'built with the real library and evaluated by the compiled engine in a forked child, and compared with an independent '
+         'closed form (math/numpy/scipy.stats); densities are integrated with scipy quad using the engine as integrand; '
+         'generated segmentation code is executed and compared with the expression (values and parameter attributes).',
+    note='Trusts math.expm1/log, scipy.stats and quad; closed forms for open ends and the shift-parameter naming are taken from '
+         'the docstrings/unit tests; inputs restricted to the documented domains (increasing thresholds, sigma > 0, a < c < b, '
+         'mu_m >= 1, disjoint nests, no subnormal literals). Seven defects found by this check were repaired (fix: commits).',
+    technique='property-based testing (Hypothesis): helper expressions vs reference closed forms, quadrature, exec round trip of generated code',
+))
 
 _claimed = {c['id'] for c in CHECKS}
 NOT_APPLICABLE = [
